@@ -350,6 +350,23 @@ func (g *pdGen) deletedNames(c int) []string {
 	return r
 }
 
+// freedNames: names some identity gave up by a rename in the ancestry of c (the intermediate names of a rename chain)
+func (g *pdGen) freedNames(c int) []string {
+	seen := map[string]bool{}
+	var r []string
+	a := g.h.Anc()[c]
+	for _, e := range g.pd.Events {
+		if e.Name != "" && a[e.Commit] && e.Commit != c {
+			n := g.pd.where(g.h, e.File, g.h.Parents[e.Commit][0])
+			if n != "" && !seen[n] {
+				seen[n] = true
+				r = append(r, n)
+			}
+		}
+	}
+	return r
+}
+
 // commit draws the content of commit c (already begun)
 func (g *pdGen) commit(c int, evPr int) {
 	rng, h := g.rng, g.h
@@ -365,6 +382,9 @@ func (g *pdGen) commit(c int, evPr int) {
 	if c > 0 && rng.Intn(evPr) == 0 {
 		pres := g.presentAtParent(c)
 		dn := g.deletedNames(c)
+		if g.renames {
+			dn = append(dn, g.freedNames(c)...) // a new file on a name that a rename gave up (round 4)
+		}
 		var renamed []string
 		for _, id := range pres {
 			if g.nameAtParent(id, c) != g.pd.Name0[id] {
@@ -488,11 +508,156 @@ func genPathDelShape(rng *rand.Rand, which int) (*synth.Hist, *pdInfo) {
 	return g.h, g.pd
 }
 
+// Rename chains (round 4, two and three features at once: per-file tracking x a chain of renames x a NEW file on a name the
+// chain gave up x a branch that still knows the file under an older name):
+//
+//	R(a, b[, c]) -> X1 renames a to x -> X2 renames x to y [-> X3 renames y to z], between them plain edits of the file;
+//	then (variant) a new file is created on one of the intermediate names; a second branch Y forks at R, in the middle of
+//	the chain or after it, edits the bystanders and is merged; [a third branch forks at R and is merged later;] tail commits
+//	edit the renamed file, the new file and the bystanders.
+//
+// D4 (checked by the driver, pd_takes_ok): when a file takes a name (creation, rename) no commit CONCURRENT with that commit has
+// another file under that name.  Nobody touches the file concurrently with its renames, so every merge is the clean union of its parents and every replay
+// of a merge commit sees the file MOVED with its content unchanged.
+func genRenChain(rng *rand.Rand) (*synth.Hist, *pdInfo) {
+	g := newPdGen(rng, true)
+	root := g.begin(nil)
+	g.insert(root, "a", 2+rng.Intn(5))
+	g.nameTouch["a"] = append(g.nameTouch["a"], root)
+	g.insert(root, "b", 1+rng.Intn(4))
+	g.nameTouch["b"] = append(g.nameTouch["b"], root)
+	if rng.Intn(2) == 0 {
+		g.insert(root, "c", 1+rng.Intn(3))
+		g.nameTouch["c"] = append(g.nameTouch["c"], root)
+	}
+	bystander := func(c int) {
+		if !g.edit(c, []string{"b", "c"}[rng.Intn(2)], false) {
+			g.edit(c, "b", false)
+		}
+	}
+	chain := []string{"x", "y", "z"}[:2+rng.Intn(2)]
+	forkStep := rng.Intn(4) // after how many commits of X the branch Y forks: 0 = at the root (mostly)
+	if forkStep == 3 {
+		forkStep = 0
+	}
+	late := rng.Intn(5) == 0 // control: Y forks after everything
+	var ytips []int
+	third := rng.Intn(3) == 0
+	tip := root
+	steps := 0
+	yfork := func() {
+		y := g.begin([]int{tip})
+		bystander(y)
+		if rng.Intn(2) == 0 {
+			y2 := g.begin([]int{y})
+			bystander(y2)
+			y = y2
+		}
+		ytips = append(ytips, y)
+	}
+	forkName := ""
+	maybeFork := func() {
+		if !late && steps == forkStep && len(ytips) == 0 {
+			forkName = g.pd.where(g.h, "a", tip) // the name under which the branch Y keeps the file
+			yfork()
+			if third {
+				yfork()
+			}
+		}
+		steps++
+	}
+	maybeFork()
+	for i, to := range chain {
+		x := g.begin([]int{tip})
+		g.rename(x, "a", to)
+		if rng.Intn(3) == 0 {
+			bystander(x)
+		}
+		tip = x
+		maybeFork()
+		if i+1 < len(chain) && rng.Intn(3) == 0 && (late || len(ytips) == 0) {
+			// a plain edit of the file between two renames - only while no other branch is open: a branch that forked earlier
+			// would see the file moved AND changed when the merge commit is replayed (not followed: known finding F22, form d)
+			e := g.begin([]int{tip})
+			g.edit(e, "a", false)
+			tip = e
+		}
+	}
+	newFile := ""
+	if rng.Intn(5) > 0 { // else control: the intermediate names stay unused
+		n := g.begin([]int{tip})
+		free := g.freedNames(n)
+		if rng.Intn(6) > 0 {
+			// D4: not the name under which the branch Y still has the file (there the merge replay sees "modified", not "moved",
+			// and hercules books the later lines of the new file in the history of the old one); a sixth of the cases keep it:
+			// their per-file tables are then judged for the plain files only
+			var f2 []string
+			for _, x := range free {
+				if x != forkName {
+					f2 = append(f2, x)
+				}
+			}
+			free = f2
+		}
+		if len(free) > 0 && g.recreate(n, free[rng.Intn(len(free))]) {
+			newFile = g.h.Paths[len(g.h.Paths)-1]
+		} else {
+			bystander(n)
+		}
+		tip = n
+	}
+	if len(ytips) == 0 {
+		yfork()
+	}
+	m := g.begin([]int{tip, ytips[0]})
+	if rng.Intn(3) == 0 {
+		g.edit(m, "b", true)
+	}
+	tip = m
+	for k := 1 + rng.Intn(2); k > 0; k-- {
+		d := g.begin([]int{tip})
+		if len(ytips) == 1 {
+			g.edit(d, "a", false)
+		}
+		if newFile != "" && rng.Intn(2) == 0 {
+			g.edit(d, newFile, false)
+		}
+		if rng.Intn(2) == 0 {
+			bystander(d)
+		}
+		tip = d
+	}
+	for _, y := range ytips[1:] {
+		if rng.Intn(2) == 0 { // one more rename before the late branch comes in
+			x := g.begin([]int{tip})
+			g.rename(x, "a", "w")
+			tip = x
+		}
+		m2 := g.begin([]int{tip, y})
+		tip = m2
+		d := g.begin([]int{tip})
+		g.edit(d, "a", false)
+		tip = d
+	}
+	return g.h, g.pd
+}
+
 func pathDelFamily(c *Config) {
 	rng := c.Rng
 	one := func(kind string, h *synth.Hist, pd *pdInfo) {
 		in := &input{kind: kind, h: h, pd: pd, keep: allIdx(h.N)}
 		params(rng, in, true)
+		// the line renderings of content.go make a deleted file and a new file SIMILAR (RenameAnalysis would pair them as a
+		// rename with an edit, which leaves the domain): the path-event kinds keep the plain "L<id>" lines
+		in.enc = 0
+		emit(c, in)
+	}
+	for i := c.Count(60, 1000); i > 0; i-- {
+		h, pd := genRenChain(rng)
+		in := &input{kind: "shape-renchain-pathdel", h: h, pd: pd, keep: allIdx(h.N)}
+		params(rng, in, true)
+		in.enc = 0
+		in.files = i%4 != 0
 		emit(c, in)
 	}
 	for i := c.Count(40, 400); i > 0; i-- {
